@@ -31,6 +31,14 @@ func cmdConc(args []string) error {
 		d := zoo.Deep()
 		return []interface{}{d, zoo.Deep2(), zoo.Absent(), zoo.Maps(), zoo.Conts()[0].V}
 	}
+	// containers handed to shared filters: slices, arrays, pointer / interface slices and maps of several key types
+	var fconts []interface{}
+	for _, c := range zoo.Conts() {
+		switch c.Name {
+		case "items", "arr", "pitems", "ifaces", "maps", "smap", "imap", "ifmap", "nsmap", "nkmap":
+			fconts = append(fconts, c.V)
+		}
+	}
 	type mm struct {
 		Scenario string `json:"scenario"`
 		Expr     string `json:"expr"`
@@ -59,7 +67,7 @@ func cmdConc(args []string) error {
 									if err != nil {
 										return err
 									}
-									_, want[di] = execute(fl, zoo.Conts()[di%8].V)
+									_, want[di] = execute(fl, fconts[di%len(fconts)])
 								} else {
 									ev, out := run.Create(src, o...)
 									if ev == nil {
@@ -81,7 +89,7 @@ func cmdConc(args []string) error {
 							if object == "shared filter" {
 								fl, _ = bexpr.CreateFilter(src)
 								if warm {
-									execute(fl, zoo.Conts()[0].V)
+									execute(fl, fconts[5])
 								}
 							}
 							start := make(chan struct{})
@@ -98,7 +106,7 @@ func cmdConc(args []string) error {
 										case "shared evaluator":
 											got = run.Eval(ev, data[di]).O
 										case "shared filter":
-											_, got = execute(fl, zoo.Conts()[di%8].V)
+											_, got = execute(fl, fconts[di%len(fconts)])
 										default:
 											e2, out := run.Create(src, o...)
 											if e2 == nil {
